@@ -380,6 +380,19 @@ theorem mkInst_inCols (positions : List Nat) (reads : List RawRead) (nind : Nat)
   have s := WhVerif.C01.mkInst_spans h
   exact fun r hr => ⟨s.first_le_last r hr, s.last_lt r hr⟩
 
+/-- **the solver as coded, on its real input**: whenever the constructor accepts a ReadSet, the bipartition and
+transmission vector that `compute_table` (Gray-code order, `⌊√n⌋` check-pointing, stored backtrace tables) and
+`get_optimal_partitioning` return achieve the TRUE minimum of the (Ped)MEC objective — no hypothesis left -/
+theorem ckpt_witness_optimal_raw (positions : List Nat) (reads : List RawRead) (nind : Nat)
+    (trios : List (Nat × Nat × Nat)) (geno : List (List (List (Option Nat)))) (recomb : List Nat) (I : Inst)
+    (h : mkInst positions reads nind trios geno recomb = some I) (β : List Bool) (τ : List Nat)
+    (hw : ckptWitness I = some (β, τ)) :
+    β.length = I.nreads ∧ τ.length = I.ncols ∧ (∀ t ∈ τ, t < I.ntrans) ∧ totalCost I β τ = optCost I := by
+  have hwf := WhVerif.C01.mkInst_wf h
+  have := ckpt_dp_witness_code I hwf β τ hw
+  rw [dp_optimal I hwf] at this
+  exact this
+
 /-- the code's spacing is the integer square root -/
 theorem ckpt_spacing_is_isqrt (n : Nat) : isqrt n * isqrt n ≤ n ∧ n < (isqrt n + 1) * (isqrt n + 1) := isqrt_spec n
 
@@ -457,6 +470,10 @@ example : True := by
     1 (by decide)).symm
   trivial
 example : InCols exampleInst := mkInst_inCols _ _ _ _ _ _ _ exampleRaw_ok
+example : ∃ β τ, ckptWitness exampleInst = some (β, τ) ∧ totalCost exampleInst β τ = optCost exampleInst := by
+  have h : (ckptWitness exampleInst).isSome = true := by decide +kernel
+  obtain ⟨⟨β, τ⟩, hw⟩ := Option.isSome_iff_exists.mp h
+  exact ⟨β, τ, hw, (ckpt_witness_optimal_raw _ _ _ _ _ _ _ exampleRaw_ok β τ hw).2.2.2⟩
 example : (superReadsOf exampleLong [(1, 0), (1, 0), (5, 0), (2, 0), (1, 0)]).getD 1 none = some [(0, 1)] := by
   decide +kernel
 
